@@ -21,7 +21,7 @@ package nflog
 
 // C10: last-writer-wins merge. Newest timestamp wins, ties keep the incumbent, expired entries are refused.
 //@ func (state).merge
-//@   props C10 C08x
+//@   props C10 C08x C19 C04
 //@   requires wfEntry(e) && wfState(s) && s != nil
 //@   ensures [result] result == old(accepts(s, e, now))
 //@   ensures [accepted] old(accepts(s, e, now)) ==> dom(s) == setadd(old(dom(s)), old(keyOf(e))) && vals(s) == upd(old(vals(s)), old(keyOf(e)), e)
